@@ -83,6 +83,8 @@ CONSTS = [
     ("C19_IDENTIFY_PAYLOAD_SIZE", "src/protocol/libp2p/identify.rs", const("IDENTIFY_PAYLOAD_SIZE")),
     ("C19_BITSWAP_MAX_MESSAGE_SIZE", "src/protocol/libp2p/bitswap/config.rs", const("MAX_MESSAGE_SIZE")),
     ("C19_WEBRTC_MAX_FRAME_SIZE", "src/transport/webrtc/util.rs", const("MAX_FRAME_SIZE")),
+    ("C19_MDNS_BUFFER", "src/protocol/mdns.rs", r"receive_buffer:\s*vec!\[0u8;\s*([^\]]+)\]"),
+    ("C19_PING_PAYLOAD_SIZE", "src/protocol/libp2p/ping/config.rs", const("PING_PAYLOAD_SIZE")),
     ("PEER_ID_MULTIHASH_SIZE", "src/peer_id.rs", r"type\s+Multihash\s*=\s*multihash::Multihash<\s*(\d+)\s*>\s*;"),
     # C04
     ("BACKPRESSURE_BOUNDARY", "src/substream/mod.rs", const("BACKPRESSURE_BOUNDARY")),
@@ -183,6 +185,11 @@ def main():
     import gen_c18_sites
     counts, miss = gen_c18_sites.generate(REPO)
     vals.update(counts)      # PEER_ID_SITES
+    missing += list(miss)
+    # C19: every decode / buffer / codec site -> coq/gen/DecodeSites.v (sibling script)
+    import gen_c19_sites
+    counts, miss = gen_c19_sites.generate(REPO)
+    vals.update(counts)      # C19_DECODE_SITES, C19_CODEC_SITES
     missing += list(miss)
     # C17: shape of the MemoryStore, its configuration and its callers -> coq/gen/C17Tables.v (sibling script)
     import gen_c17_tables
